@@ -80,6 +80,21 @@ pub mod probes_single {
     impl Same for ProbeA {
         type Out = ProbeA;
     }
+    /// a zero-sized, stateless agent
+    pub struct ProbeZ;
+    impl ProbeZ {
+        pub fn new(tag: &mut u32) -> Self {
+            *tag += 1;
+            ProbeZ
+        }
+    }
+    impl Agent for ProbeZ {
+        fn update<R: RngCore>(&mut self, env: &mut Env, rng: &mut R) {
+            let d = rng.next_u64();
+            log_push(LogRec { tag: 0xFFFF, env_addr: env as *mut Env as usize, rng_addr: rng as *mut R as *mut u8 as usize, draw: d });
+            env.place_order(Side::Ask, 1 + (d % 2) as u32, 0xFFFF, Some(140 + (d % 50) as u32)).unwrap();
+        }
+    }
     impl<T: ?Sized> Agent for ProbeG<T> {
         fn update<R: RngCore>(&mut self, env: &mut Env, rng: &mut R) {
             let d = rng.next_u64();
@@ -152,6 +167,21 @@ pub mod probes_multi {
     }
     impl Same for ProbeA {
         type Out = ProbeA;
+    }
+    /// a zero-sized, stateless agent
+    pub struct ProbeZ;
+    impl ProbeZ {
+        pub fn new(tag: &mut u32) -> Self {
+            *tag += 1;
+            ProbeZ
+        }
+    }
+    impl MarketAgent for ProbeZ {
+        fn update<R: RngCore, const M: usize, const N: usize>(&mut self, env: &mut MarketEnv<M, N>, rng: &mut R) {
+            let d = rng.next_u64();
+            log_push(LogRec { tag: 0xFFFF, env_addr: env as *mut MarketEnv<M, N> as usize, rng_addr: rng as *mut R as *mut u8 as usize, draw: d });
+            env.place_order((d >> 20) as usize % M, Side::Ask, 1 + (d % 2) as u32, 0xFFFF, Some(140 + (d % 50) as u32)).unwrap();
+        }
     }
     impl<T: ?Sized> MarketAgent for ProbeG<T> {
         fn update<R: RngCore, const M: usize, const N: usize>(&mut self, env: &mut MarketEnv<M, N>, rng: &mut R) {
@@ -431,7 +461,9 @@ fn run(c: &ShapeCase) -> (Vec<(&'static str, u64)>, bool, Result<(), Failure>) {
             };
             return (classes, nontrivial, Err(fail(sig, format!("call {}: derived updated members {:?}, hand-written sequence {:?}", k, td, tm))));
         }
-        if td.windows(2).any(|w| w[0] >= w[1]) {
+        // (a zero-sized probe cannot carry its tag and logs 0xFFFF: left out of this self-check of the reference)
+        let tagged: Vec<u32> = td.iter().cloned().filter(|t| *t != 0xFFFF).collect();
+        if tagged.windows(2).any(|w| w[0] >= w[1]) {
             return (classes, nontrivial, Err(fail("C20 hand-written reference is not in declaration order", format!("{:?}", td))));
         }
         if ld.iter().any(|r| r.env_addr != ld[0].env_addr) {
